@@ -71,7 +71,15 @@ func main() {
 				die("unknown property %s", pos[1])
 			}
 			g := gen.New(env.Seed*1000003+int64(len(c.id)), env.Tier == "thorough")
-			if err := writePrograms(pos[2], c.gen(g, env.Tier == "thorough")); err != nil {
+			progs := c.gen(g, env.Tier == "thorough")
+			if c.sim != nil {
+				sp, err := simPrograms(env, c.sim, env.Tier == "thorough")
+				if err != nil {
+					die("%v", err)
+				}
+				progs = append(progs, sp...)
+			}
+			if err := writePrograms(pos[2], progs); err != nil {
 				die("%v", err)
 			}
 			code = 0
